@@ -31,10 +31,11 @@ from operon_ai.coordination.types import LockResult, Phase, ResourceLock
 ID = "C14"
 LEVEL = "fault_enumeration"
 ENGINE = "seq"
-RUNS = {"quick": 100_000, "thorough": 2_500_000}
+RUNS = {"quick": 80_000, "thorough": 2_500_000}
 RULE = ("run i < table size decodes the i-th case of the finite table {request-list shape over 1..3 resources incl. "
         "repeated entries} x {no foreign holder, k-th entry held and blocking, k-th entry held and pre-emptable, "
-        "unrequested resource held} x {one fault at each step of execute_operation: each checkpoint evaluation false or "
+        "unrequested resource held, first/last entry already held by an abandoned stepped context of the same id, first entry "
+        "registered already owned by this id / by an id that never runs} x {one fault at each step of execute_operation: each checkpoint evaluation false or "
         "raising, unknown id at the first/last position, work raising / stalling past the watchdog limit / re-entering "
         "(kill own operation, run_maintenance, shutdown, nested execute_operation), validation false / falsy / raising / "
         "re-entering; a kill (kill_operation / watchdog time-out / shutdown) delivered at a controller step of the operation in "
@@ -50,7 +51,11 @@ COMPONENTS = {"real": ["operon_ai.coordination.system.CoordinationSystem", "Cell
                        "operon_ai.cell.IntegratedCell incl. its quality pool, proteasome and surveillance"],
               "stub": ["work_fn / validate_fn (scripted)", "checkpoint conditions (scripted, defaults otherwise)",
                        "datetime.utcnow / time.time (virtual clock)"]}
-ASSUMPTIONS = ["operation ids are unique within a run (no reuse while live or afterwards)",
+ASSUMPTIONS = ["an operation id may be used again: after it ended it is a fresh operation; while it is still live through the "
+               "stepping API the old context is abandoned - the holds of the abandoned context (and locks registered already "
+               "owned) belong to the id but to no live context and are not judged until a context of that id obtains the "
+               "resource (REENTRANT), from then on that context must give the whole hold back; beyond that, id reuse while live "
+               "is not demanded (DESIGN 7)",
                "work/validate faults are Exception subclasses (BaseException is not demanded)",
                "'holds all requested resources' is sampled at work_fn entry",
                "a falsy non-bool validation value is outside validate_fn's bool contract: success is not judged for it, "
@@ -67,7 +72,8 @@ EXPECT_PROBES = ("exit_commit", "exit_blocked", "exit_unknown_resource", "exit_c
                  "preempting_hold", "foreign_holder_met", "reenter_fired", "nested_exec", "two_faults", "via_cell",
                  "stall_killed_inside_work", "stepped_reentrant_hold", "table_case", "step_kill_fired", "step_kill_acq_before",
                  "step_kill_acq_after", "step_kill_adv_before", "acquired_after_being_killed", "exit_after_kill_failure",
-                 "exit_after_kill_commit", "falsy_work_result")
+                 "exit_after_kill_commit", "falsy_work_result", "adopted_hold", "preowned_lock",
+                 "context_abandoned", "id_reused_after_end", "blocked_on_orphan_hold")
 
 RES = ["r0", "r1", "r2"]
 PHASES = {"G0": Phase.G0, "G1": Phase.G1, "S": Phase.S, "G2": Phase.G2, "M": Phase.M}
